@@ -279,8 +279,11 @@ def correspondence(res, r, n_wild, n_dialect, corpus_types):
 
 # ---------------------------------------------------------------------------------------------
 
-def run_workers(jobs, n_workers, deadline):
-  """jobs: list of dict(id, src). Returns {id: result}."""
+def run_workers(jobs, n_workers, deadline, floor=0, hard_cap_s=900):
+  """jobs: list of dict(id, src). Returns {id: result}.  The budget is wall time; on a loaded machine jobs keep being
+  fed past the deadline until `floor` results are in (bounded by hard_cap_s), so that the floor obligation does not
+  depend on how busy the machine is."""
+  hard_cap = deadline + hard_cap_s
   env = common.impl_env()
   procs = []
   worker = os.path.join(os.path.dirname(os.path.abspath(__file__)), "c06_worker.py")
@@ -295,7 +298,7 @@ def run_workers(jobs, n_workers, deadline):
   results = {}
   sel = selectors.DefaultSelector()
   def feed(p):
-    if pending and time.time() < deadline:
+    if pending and (time.time() < deadline or (len(results) < floor and time.time() < hard_cap)):
       p.stdin.write(json.dumps(pending.pop(0)) + "\n")
       p.stdin.flush()
       return True
@@ -309,7 +312,7 @@ def run_workers(jobs, n_workers, deadline):
     sel.register(p.stdout, selectors.EVENT_READ, p)
     open_n += 1
     feed(p)
-  while open_n and time.time() < deadline + 30:
+  while open_n and time.time() < (hard_cap if len(results) < floor else deadline + 30):
     for key, _ in sel.select(timeout=1.0):
       line = key.fileobj.readline()
       if not line:
@@ -381,7 +384,7 @@ def e2e(res, r, n_programs, n_workers, budget_s, corpus_programs):
   for i in range(n_programs):
     jobs.append({"id": "p%d" % i, "src": E.gen_program(r)})
   t0 = time.time()
-  results = run_workers(jobs, n_workers, t0 + budget_s)
+  results = run_workers(jobs, n_workers, t0 + budget_s, floor=min(len(jobs), 12))
   wall = time.time() - t0
   by_id = {j["id"]: j for j in jobs}
   stats = {}
@@ -492,7 +495,13 @@ def run(res):
               "constrained TypeVars, a subclass fixing a parameter, generic functions returning instances.  B probes INSIDE every "
               "value that is an instance of one of A's classes (attributes incl. inherited, properties, methods with <=1 argument); "
               "the same probe expressions are appended to A, and B's type for each probe must be the type A's own analysis infers "
-              "for it (or the type declared in A's stub with the type parameters substituted).")
+              "for it (or the type declared in A's stub with the type parameters substituted).  (c) declaration stubs: 8 argument/"
+              "formal types (plain classes with a subclass pair, Any, generated containers/unions/callables), 3 functions with 1-3 "
+              "signatures (positional-only, defaults, *args, **kwargs, keyword-only) each called with its own types and with "
+              "varied calls (omitted defaults, keywords, extra positional/keyword, wrong counts), 2-3 classes (chain of generic "
+              "bases, colliding TypeVar names, constants T / list[T] / dict[str,T] / tuple / Optional[T], methods incl. "
+              "overloads, properties, static/class methods), instances C[ps], every visible member read or called, class "
+              "reads, class and function re-exports; a probe is distinct by (kind, shape of the emitted type, accepted).")
   res.assumptions = [
       "the type-expression model covers constants and aliases; signatures, classes, type parameters, module resolution and "
       "LateType resolution are exercised only by the end-to-end oracle (b) (partial)",
@@ -502,6 +511,11 @@ def run(res):
       "hand-off theorems take C05 (print/parse), C12 (decode.encode = id), C04 (ordering is a permutation) and "
       "resolution-invariance as explicit premises; the e2e oracle checks the composed statement on real runs",
       "generator, translator pytd<->model and oracle in harness/props/c06*.py; pytype's own pyi parser reads both stubs",
+      "declaration level (Conv/Decl.v): the matcher is a parameter of the model; its answers for every (argument type, formal "
+      "type) pair used are measured on the real code in the same downstream module and acc t t = true is monitored; "
+      "overloaded functions' return types have pairwise different base classes (Optimize inside _combine_multiple_returns "
+      "is not modelled); one user base class per class, base arguments a type parameter or a ground type; type parameters "
+      "below type[..] / Callable[..] are outside the model (two fixed probes keep the findings reproduced)",
   ]
   common.coq_obligations(res, "C06")
   common.bootstrap_pytype()
@@ -513,6 +527,9 @@ def run(res):
   class_table_obligation(res)
   n_wild, n_dialect = (2500, 2500) if thorough else (300, 300)
   correspondence(res, r, n_wild, n_dialect, corpus_types)
+  import c06_decl
+  n_batches = 40 if thorough else 4
+  c06_decl.leg(res, common.rng(res.seed, "c06-decl"), n_batches, 3, report)
   n_prog, budget = (4000, 720) if thorough else (400, 50)
   e2e(res, common.rng(res.seed, "c06-e2e"), n_prog, 4, budget, corpus_programs)
   if thorough:
@@ -533,6 +550,12 @@ def replay(res, path):
   d = json.load(open(path))
   rep = d["replay"]
   os.makedirs(WORK, exist_ok=True)
+  if rep.get("kind") == "decl":
+    import c06_decl
+    pyi, errs = c06_decl.replay(rep, os.path.join(WORK, "replay"))
+    # still failing = the fingerprinted name is an error line or does not carry the expected type (printed above for
+    # inspection; the verdict of a full run is taken by the oracle in c06_decl.leg)
+    return 1 if rep.get("names") else 0
   if rep.get("kind") == "types":
     loaded, pre, post, errs = L.round_trip(rep["stub"], os.path.join(WORK, "replay"))
     bad = False
